@@ -140,6 +140,9 @@ type scenario struct {
 	EnvNames    []string `json:"env_name_per_field"`
 	Target      int      `json:"target_field"` // -1: none
 	Note        string   `json:"note,omitempty"`
+	// ValidatorStyle: "" = the Validate methods use ozzo-validation (what the ReadMe shows); "library-error" = they report a
+	// missing field themselves, with an error of the library of another kind than 'invalid' (UndefinedVariable)
+	ValidatorStyle string `json:"validator_style,omitempty"`
 }
 
 func newScenario(part string, s *structSpec, prefix string, envNames []string) *scenario {
@@ -256,6 +259,7 @@ func (r *runner) run(s *structSpec, sc *scenario) (out outcome) {
 	}
 
 	// ---- required pattern ------------------------------------------------------------------------
+	validatorStyleNow = sc.ValidatorStyle
 	for k := range requiredNow {
 		delete(requiredNow, k)
 	}
